@@ -19,7 +19,7 @@ def holds(leaf: V) -> bool:
     return leaf in HOLDS
 
 
-@spec
+@spec(fuel=2)
 def sat(g: V) -> bool:
     """the boolean formula a (nested) group spells"""
     if is_inst(g, "Spec"):
@@ -31,7 +31,7 @@ def sat(g: V) -> bool:
     return False
 
 
-@spec
+@spec(fuel=2)
 def wf(g: V) -> bool:
     if is_inst(g, "Spec"):
         return True
@@ -69,17 +69,22 @@ def nf_sat(g: V) -> bool:
     return dnf_sat(g)
 
 
-# O2 (shape) is proved deductively; O1 (semantic equivalence for every valuation) is covered by the bounded native
-# check below - the \exists = \exists preservation steps over freshly allocated containers did not discharge in the
-# time box (DESIGN.md, C07), so the equivalence is NOT counted as proved.
+# Proved deductively (all formulas, all valuations, no depth/width bound):
+#   O2  shape: the result is one `or` of `and`s of leaves;
+#   O1> soundness: whenever the normal form is satisfied the original group is ("the statement never completes before
+#       its formula holds").
+# O1< (completeness: the normal form is satisfied whenever the group is) needs an index-arithmetic invariant for the
+# distribution loops (the (i*m+j)-th product term) plus a forall-exists invariant that sends E-matching into a loop together
+# with O1>; it is covered by the bounded native check below and is NOT counted as proved (DESIGN.md, C07).
 contract(
     EXP, "flatten_or_group", prop="C07", value_mode=True, allocates=True,
     requires=["is_dict(group)", "has(group, 'elements')", "is_list(group['elements'])",
               "all(and_of_leaves(x) or dnf(x) for x in group['elements'])"],
-    ensures=["dnf(result)", "fresh(result)"],
+    ensures=["dnf(result)", "fresh(result)", "implies(dnf_sat(result), any(nf_sat(x) for x in group['elements']))"],
     loops={"for elem in group['elements']": dict(index="k", inv=[
         "is_list(new_elements)", "fresh(new_elements)",
-        "all(and_of_leaves(x) for x in new_elements)"])},
+        "all(and_of_leaves(x) for x in new_elements)",
+        "all(implies(and_sat(x), any(nf_sat(item(group['elements'], j)) for j in range(k))) for x in new_elements)"])},
 )
 
 COMP_OR = ("[normalize_element_groups(elem) if isinstance(elem, dict) else {'_type': 'spec_and', 'elements': [elem]} "
@@ -88,15 +93,20 @@ COMP_OR = ("[normalize_element_groups(elem) if isinstance(elem, dict) else {'_ty
 contract(
     EXP, "normalize_element_groups", prop="C07", value_mode=True, allocates=True,
     requires=["acyclic()", "is_input(group)", "wf(group)"],
-    ensures=["dnf(result)"],
+    ensures=["dnf(result)", "implies(dnf_sat(result), sat(group))"],
     decreases="rank(group)",
-    comps={COMP_OR: dict(each=["and_of_leaves(_item) or dnf(_item)"])},
+    comps={COMP_OR: dict(each=["and_of_leaves(_item) or dnf(_item)", "implies(nf_sat(_item), sat(elem))"])},
+    hints=[dict(after="new_elem = {'_type': 'spec_and', 'elements': res_elem['elements'] + norm_elem['elements']}",
+                facts=["implies(and_sat(new_elem), and_sat(res_elem))", "implies(and_sat(new_elem), and_sat(norm_elem))"])],
     loops={
         "for elem in group['elements']": dict(index="k", inv=[
-            "is_list(results)", "all(and_of_leaves(x) for x in results)"]),
+            "is_list(results)", "all(and_of_leaves(x) for x in results)",
+            "all(implies(and_sat(x), all(sat(item(group['elements'], j)) for j in range(k))) for x in results)"]),
         "for res_elem in results": dict(index="a", inv=[
-            "is_list(new_results)", "fresh(new_results)", "all(and_of_leaves(x) for x in new_results)"]),
+            "is_list(new_results)", "fresh(new_results)", "all(and_of_leaves(x) for x in new_results)",
+            "all(implies(and_sat(x), all(sat(item(group['elements'], j)) for j in range(k + 1))) for x in new_results)"]),
         "for norm_elem in normalized['elements']": dict(index="b", inv=[
-            "is_list(new_results)", "fresh(new_results)", "all(and_of_leaves(x) for x in new_results)"]),
+            "is_list(new_results)", "fresh(new_results)", "all(and_of_leaves(x) for x in new_results)",
+            "all(implies(and_sat(x), all(sat(item(group['elements'], j)) for j in range(k + 1))) for x in new_results)"]),
     },
 )
